@@ -8,29 +8,35 @@ import DefraModel.Bytes
 namespace Defra.Enc
 
 /-- marker constants of encoding.go (tied to the source by Generated/EncodingConsts.lean) -/
-def encodedNull : Nat := 0
-def float64NaN : Nat := 1
-def float64Neg : Nat := 2
-def float64Zero : Nat := 3
-def float64Pos : Nat := 4
-def float64NaNDesc : Nat := 5
-def bytesMarker : Nat := 6
-def bytesDescMarker : Nat := 7
-def timeMarker : Nat := 8
-def falseMarker : Nat := 9
-def trueMarker : Nat := 10
-def jsonMarker : Nat := 11
-def float32NaN : Nat := 12
-def float32Neg : Nat := 13
-def float32Zero : Nat := 14
-def float32Pos : Nat := 15
-def float32NaNDesc : Nat := 16
-def IntMin : Nat := 128
-def intMaxWidth : Nat := 8
-def intZero : Nat := 136
-def intSmall : Nat := 109
-def IntMax : Nat := 253
-def encodedNullDesc : Nat := 255
+@[simp] abbrev encodedNull : Nat := 0
+@[simp] abbrev float64NaN : Nat := 1
+@[simp] abbrev float64Neg : Nat := 2
+@[simp] abbrev float64Zero : Nat := 3
+@[simp] abbrev float64Pos : Nat := 4
+@[simp] abbrev float64NaNDesc : Nat := 5
+@[simp] abbrev bytesMarker : Nat := 6
+@[simp] abbrev bytesDescMarker : Nat := 7
+@[simp] abbrev timeMarker : Nat := 8
+@[simp] abbrev falseMarker : Nat := 9
+@[simp] abbrev trueMarker : Nat := 10
+@[simp] abbrev jsonMarker : Nat := 11
+@[simp] abbrev float32NaN : Nat := 12
+@[simp] abbrev float32Neg : Nat := 13
+@[simp] abbrev float32Zero : Nat := 14
+@[simp] abbrev float32Pos : Nat := 15
+@[simp] abbrev float32NaNDesc : Nat := 16
+@[simp] abbrev IntMin : Nat := 128
+@[simp] abbrev intMaxWidth : Nat := 8
+@[simp] abbrev intZero : Nat := 136
+@[simp] abbrev intSmall : Nat := 109
+@[simp] abbrev IntMax : Nat := 253
+@[simp] abbrev encodedNullDesc : Nat := 255
+
+/-- unfold every marker constant (they are atoms to `omega` otherwise) -/
+macro "enc_consts" : tactic => `(tactic| try simp only [encodedNull, float64NaN, float64Neg, float64Zero, float64Pos,
+  float64NaNDesc, bytesMarker, bytesDescMarker, timeMarker, falseMarker, trueMarker, jsonMarker, float32NaN,
+  float32Neg, float32Zero, float32Pos, float32NaNDesc, IntMin, intMaxWidth, intZero, intSmall, IntMax,
+  encodedNullDesc] at *)
 
 /-- the `w` low-order bytes of `x`, most significant first
     (`byte(v>>8(w-1)), …, byte(v)`) -/
